@@ -229,6 +229,27 @@ def enumerate_shipped(tier, seed, shard, nshards):
             yield {"trans": {"name": n}, "epoch": list(e), "X": X}
 
 
+def _fill_point(u_az, u_z, u_r):
+    z = 2.0 * u_z - 1.0
+    rad = 1e7 * (0.3 + 0.7 * u_r)               # Earth-surface-like radii up to the 1e7 m of the statement
+    p = math.sqrt(max(0.0, 1.0 - z * z))
+    lam = 2.0 * math.pi * u_az
+    return [rad * p * math.cos(lam), rad * p * math.sin(lam), rad * z]
+
+
+def _epoch_of(u):
+    return list(datetime.date.fromordinal(EPOCH_LO + min(int(u * (EPOCH_HI - EPOCH_LO + 1)), EPOCH_HI - EPOCH_LO)).timetuple()[:3])
+
+
+def _fill_build(u):
+    name, r = S.u_pick(u[3], TR.shipped_dated_names())
+    return {"trans": {"name": name}, "epoch": _epoch_of(u[4]), "X": _fill_point(u[0], u[1], u[2])}
+
+
+def _atrf_fill(u):
+    return {"epoch": _epoch_of(u[3]), "X": _fill_point(u[0], u[1], u[2]), "vcv": None}
+
+
 def _nt(case):
     tr = TR.make_trans(case["trans"]) if "trans" in case else repo.mod("geodepy.constants").atrf2014_to_gda2020
     if not isinstance(tr.ref_epoch, datetime.date):
@@ -253,6 +274,12 @@ SUBCHECKS = [
     SubCheck("linear_shipped_sets", check_linear, enumerate=enumerate_shipped, nontrivial=_nt, classes=_classes,
              shards_quick=2, shards_thorough=8, exhaustive="both",
              rule="all dated shipped sets x special + random epochs in one process: conform14 vs formula with advanced parameters, 2 um"),
+    SubCheck("linear_fill", check_linear, enumerate=S.fill(707, 5, _fill_build, 30000, 600000), nontrivial=_nt, classes=_classes,
+             shards_quick=12, shards_thorough=16,
+             rule="low-discrepancy fill of dated shipped set x epoch (every day 1980..2060) x direction (uniform on the sphere) x radius: 30 000 / 600 000 cases"),
+    SubCheck("atrf_fill", check_atrf, enumerate=S.fill(708, 4, _atrf_fill, 20000, 400000), nontrivial=lambda c: tuple(c["epoch"]) != (2020, 1, 1),
+             classes=_classes, shards_quick=12, shards_thorough=16,
+             rule="the same fill through the ATRF2014 <-> GDA2020 wrappers: 20 000 / 400 000 cases"),
     SubCheck("linear_generated", check_linear, strategy=cases, nontrivial=_nt, classes=_classes,
              quick=2500, thorough=250000, shards_quick=3, shards_thorough=12, seq_groups=[["trans"], ["epoch"], ["X"]],
              fresh=(8, 64, 3), rule="(shipped | random sets) x epochs x points, with call sequences sharing the epoch or the set"),
